@@ -247,9 +247,72 @@ def crossSchedule : List Step :=
 /-- **simultaneous_open_counterexample** (property "reused never closed" FAILS for the code as it is): -/
 theorem simultaneous_open_counterexample :
     let s := run genTable (init true (none, none)) crossSchedule
-    s.pc .Pd = .done (.fresh, .incoming) (.reused (some .c)) false ∧ s.closed .c = true ∧
-    s.pc .Qc = .done (.fresh, .incoming) (.reused (some .d)) false ∧ s.closed .d = true ∧
+    s.pc .Pd = .done (.fresh, .incoming) (.reused (some .c)) false false ∧ s.closed .c = true ∧
+    s.pc .Qc = .done (.fresh, .incoming) (.reused (some .d)) false false ∧ s.closed .d = true ∧
     reusedNotClosed s = false ∧ crossStore s = true := by decide
+
+/-! ### close-watchers: which connections are reaped when they close (facts of `overlay/transport.go`)
+
+`reapPeer` reaps by KEY: it deletes and closes whatever is cached for the peer when it runs. The connection that
+LOSES a negotiation (another connection is returned as reused) is closed by the negotiation itself; a close-watcher
+on it would therefore always fire, and tear down the cached connection both peers just agreed to reuse. -/
+
+/-- **watchers_only_on_stored_connections** (the extracted facts of `handleIncoming` / `handleOutgoing`): an end
+starts a close-watcher exactly when `reuseConnection` reports the connection as new (`reused = false`, `handlePeer`
+for the returned connection); when it reports a reused connection, no watcher is started - neither a second one for
+the returned (cached) connection nor one for the negotiated connection that lost. And the `reused` flag of every
+successful row of the decision table says what the row returns (`true` iff the cache entry), which is why the model
+reads the flag's consequences off the result. -/
+theorem watchers_only_on_stored_connections :
+    (∀ d, Gen.C41.watch d true = { returned := false, negotiated := false }) ∧
+    (∀ d, (Gen.C41.watch d false).returned = true) ∧
+    (∀ ps pd cached cdir dir rc rcdir, (Gen.C41.decide ps pd cached cdir dir rc rcdir).err = .nil →
+      ((Gen.C41.decide ps pd cached cdir dir rc rcdir).reused = true ↔
+        (Gen.C41.decide ps pd cached cdir dir rc rcdir).ret = .cache)) := by
+  refine ⟨fun d => by cases d <;> rfl, fun d => by cases d <;> rfl, ?_⟩
+  intro ps pd cached cdir dir rc rcdir
+  cases ps <;> cases pd <;> cases cached <;> cases cdir <;> cases dir <;> cases rc <;> cases rcdir <;> decide
+
+/-- **shared_connection_survives_further_negotiation.** Both peers cache the pre-existing connection `e` and negotiate
+one further connection, or two simultaneously (a dial that raced with the cache being populated, a second caller, both
+peers dialing each other); no environment event. Whatever the interleaving of the negotiation ends and of the reaps:
+in every final state BOTH peers still cache `e` and `e` is open - the close of the losing connection(s) has no
+consequence for the connection the peers agreed to reuse. -/
+theorem shared_connection_survives_further_negotiation (dual : Bool) (pre : Entry × Entry)
+    (hp : pre ∈ sharedStates) (l : List Step) (hf : final (run genTable (init dual pre) l) = true) :
+    (run genTable (init dual pre) l).cached .P = some .e ∧ (run genTable (init dual pre) l).cached .Q = some .e ∧
+      (run genTable (init dual pre) l).closed .e = false := by
+  have hd : dual ∈ [false, true] := by cases dual <;> simp
+  have := explore_sound _ _ l 18 _ (explore_shared dual hd pre hp) hf
+  simp only [keepsShared, Bool.and_eq_true, beq_iff_eq, Bool.not_eq_true'] at this
+  exact ⟨this.2.1.1, this.2.1.2, this.2.2⟩
+
+/-- non-vacuity: such a run, with its final state -/
+example : let s := run genTable (init false (some (.e, .incoming), some (.e, .outgoing))) [.snap .Pc, .snap .Qc, .dec .Pc, .dec .Qc]
+    (some (Conn.e, Dir.incoming), some (Conn.e, Dir.outgoing)) ∈ sharedStates ∧ final s = true ∧
+    s.pc .Qc = .done (.cached, .outgoing) (.reused (some .e)) false false ∧ s.cl .c = .neg ∧ keepsShared s = true := by decide
+
+/-- the generated table, except that `handleIncoming` also starts a close-watcher (→ `reapPeer`) for an accepted
+connection that LOST the negotiation (it assumes that `reapPeer` only releases the connection it is called for) -/
+def loserWatchTable : Table :=
+  { genTable with watch := fun d r => match d, r with
+      | .incoming, true => { returned := false, negotiated := true }
+      | _, _ => Gen.C41.watch d r }
+
+/-- … then the redundant negotiation destroys the shared connection: P closes the losing `c` (508), Q's watcher on
+`c` fires and `reapPeer` evicts and closes the cached `e` at Q, P's close-watcher of `e` evicts it at P: both
+caches end empty and the connection both ends returned as reused was closed by the negotiation. -/
+def loserSchedule : List Step := [.snap .Pc, .snap .Qc, .dec .Pc, .dec .Qc, .reap .Qc, .reapE .P, .reapE .Q]
+example : let s := run loserWatchTable (init false (some (.e, .outgoing), some (.e, .incoming))) loserSchedule
+    final s = true ∧ s.cached .P = none ∧ s.cached .Q = none ∧ s.cl .e = .neg ∧
+    s.pc .Pc = .done (.cached, .outgoing) (.reused (some .e)) false false ∧
+    s.pc .Qc = .done (.cached, .incoming) (.reused (some .e)) true true ∧
+    reusedNotClosed s = false ∧ keepsShared s = false := by decide
+/-- … and it is not final before Q's watcher has run: the reap of the losing connection is DUE -/
+example : let s := run loserWatchTable (init false (some (.e, .outgoing), some (.e, .incoming))) (loserSchedule.take 4)
+    final s = false ∧ enabled s (.reap .Qc) = true := by decide
+/-- from empty caches (nothing is ever returned as reused by a single dial) the two tables cannot be told apart -/
+example : explore loserWatchTable goodStrict 18 (init false (none, none)) = true := by decide +kernel
 
 /-! ### non-vacuity -/
 
@@ -262,7 +325,7 @@ example : let s := run genTable (init true (none, none)) [.snap .Pc, .snap .Qc, 
     reusedNotClosed s = true := by decide
 /-- both cached the old connection: the new one is closed, the old one is reused by both and stays open -/
 example : let s := run genTable (init false (some (.e, .outgoing), some (.e, .incoming))) [.snap .Pc, .snap .Qc, .dec .Qc, .dec .Pc]
-    final s = true ∧ s.pc .Pc = .done (.cached, .outgoing) (.reused (some .e)) false ∧ s.closed .e = false ∧
+    final s = true ∧ s.pc .Pc = .done (.cached, .outgoing) (.reused (some .e)) false false ∧ s.closed .e = false ∧
     s.closed .c = true := by decide
 /-- after the cross store both peers reap: final caches are empty (no split brain, nothing new cached) -/
 example : let s := run genTable (init true (none, none)) (crossSchedule ++ [.reap .Pc, .reap .Qd])
@@ -282,7 +345,7 @@ def incomingOnlyTable : Table :=
   ⟨Gen.C41.snapshot, fun ps pd cached cdir dir rc rcdir =>
     match ps, pd, cached, dir, rc, rcdir with
     | .fresh, .outgoing, false, .incoming, true, .outgoing => Gen.C41.decide ps pd cached cdir dir false rcdir
-    | _, _, _, _, _, _ => Gen.C41.decide ps pd cached cdir dir rc rcdir, Gen.C41.reap⟩
+    | _, _, _, _, _, _ => Gen.C41.decide ps pd cached cdir dir rc rcdir, Gen.C41.reap, Gen.C41.watch⟩
 
 def overwriteSchedule : List Step :=
   [.snap .Pc, .snap .Qc, .snap .Qd, .snap .Pd, .dec .Pc, .dec .Qc, .dec .Qd, .dec .Pd]
@@ -318,7 +381,7 @@ example : ((true, false), false) ∈ envConfigs ∧ ((false, true), false) ∈ e
 /-- the generated table, except that `reapPeer` only deletes the cached entry and closes the connection that
 triggered the reap (it assumes that the cached connection IS that connection) -/
 def evictOnlyTable : Table :=
-  ⟨Gen.C41.snapshot, Gen.C41.decide, fun _ => { del := true, closeCached := false, closeTrigger := true }⟩
+  ⟨Gen.C41.snapshot, Gen.C41.decide, fun _ => { del := true, closeCached := false, closeTrigger := true }, Gen.C41.watch⟩
 
 /-- … then the stale reap evicts the live `c` at P silently, Q keeps caching it: the state is final and
 `cache_new_only_if_peer_does` fails (Q caches the new connection `c`, P caches nothing) -/
@@ -351,7 +414,7 @@ def diesInTheWindow : List Step :=
 
 example : let s := run genTable (init false (some (.e, .outgoing), some (.e, .incoming)) (false, false) true) diesInTheWindow
     final s = true ∧ s.cached .P = none ∧ s.cached .Q = none ∧ s.cl .e = .late ∧ s.cl .c = .neg ∧
-    s.pc .Pc = .done (.cached, .outgoing) (.reused (some .e)) false ∧ good s = true := by decide
+    s.pc .Pc = .done (.cached, .outgoing) (.reused (some .e)) false false ∧ good s = true := by decide
 /-- the window is real: when P's end decides, its snapshot says `e` but its cache is empty -/
 example : let s := run genTable (init false (some (.e, .outgoing), some (.e, .incoming)) (false, false) true) (diesInTheWindow.take 4)
     s.pc .Pc = .snapped (some (.e, .outgoing)) (.cached, .outgoing) ∧ s.cached .P = none ∧
@@ -371,7 +434,7 @@ def recheckTable : Table :=
     | .cached, .incoming, true, .outgoing, false =>
       { reload := true, closeFresh := false, closeCache := false, store := .fresh, del := false, ret := .fresh,
         reused := false, err := .nil }
-    | _, _, _, _, _ => Gen.C41.decide ps pd cached cdir dir rc rcdir, Gen.C41.reap⟩
+    | _, _, _, _, _ => Gen.C41.decide ps pd cached cdir dir rc rcdir, Gen.C41.reap, Gen.C41.watch⟩
 
 /-- … then P keeps `c` for itself: Q, which reported CACHED too, returns its cached `e` and never stores `c`;
 `cache_new_only_if_peer_does` fails in a final state (P caches the live new connection `c`, Q caches nothing) -/
